@@ -291,11 +291,26 @@ class World(EventDispatcher):
             f'Entity ID must be hashble, found {entity}, which is not')
 
         if immediate:
-            for component_type in self._entities[entity]:
+            for component_type, component in tuple(
+                    self._entities[entity].items()):
                 self._components[component_type].discard(entity)
 
                 if not self._components[component_type]:
                     del self._components[component_type]
+
+                # Event handling, code replication (see remove_component)
+                if hasattr(component, '__events__'):
+                    if (ON_REMOVE_EVENT_NAME in component.__events__
+                            and self._dispatch_enabled):
+                        getattr(component,
+                                component.__events__[ON_REMOVE_EVENT_NAME])(
+                                    entity, self)
+                    elif ON_REMOVE_EVENT_NAME in component.__events__:
+                        self.dispatch(ON_SINGLE_DISPATCH_EVENT_NAME,
+                                      ON_REMOVE_EVENT_NAME,
+                                      component, entity, self)
+
+                    self.remove_handler(component)
 
             del self._entities[entity]
             # The entity is gone, nothing is left to delete later
